@@ -162,7 +162,9 @@ class _Outliner(ast.NodeTransformer):
         if reductions:
             # partial = __sim.parallel_for(...); name = name op combine(partials)
             call = ast.Call(ast.Attribute(ast.Name("__sim", ast.Load()), "parallel_for", ast.Load()),
-                            [rng, ast.Name(name, ast.Load()), ast.Constant(sorted(reductions.items()))], [])
+                            [rng, ast.Name(name, ast.Load()),
+                             ast.Tuple([ast.Tuple([ast.Constant(rn), ast.Constant(ro)], ast.Load()) for rn, ro in sorted(reductions.items())],
+                                       ast.Load())], [])
             stmts.append(ast.copy_location(ast.Assign([ast.Name("__partials", ast.Store())], call), node))
             for rname, op in sorted(reductions.items()):
                 binop = {"Add": ast.Add(), "Sub": ast.Add(), "Mult": ast.Mult()}[op]  # `s -= v` partials hold -v sums
